@@ -192,6 +192,15 @@ def r_stats_and_arms(F, R, cat=None):
         for e in entries:
             if e.ctx is ctx and any(e.top_bb in reach_strict(b, dbi) for dbi in drains):
                 ok_stats = False
+        # a symbol seen for the first time starts at zero (`entry(x).or_insert(0) += 1`)
+        for c2 in all_ctxs(F, b):
+            for (bi2, t2) in c2.body.calls():
+                if callee_tag(t2.get("callee"))[1] == "or_insert" and len(t2["args"]) == 2:
+                    init = operand_tree(c2, t2["args"][1])
+                    if init[0] == "const" and str(init[1]).lstrip("-").isdigit() and int(init[1]) != 0:
+                        R.check("R-HUFF-ARMS", b.label(), False, construct="a new symbol's count starts at zero",
+                                where="%s:%s" % (c2.body.file, t2["line"]),
+                                detail="or_insert(%s) followed by += 1 counts the first occurrence %d times" % (init[1], int(init[1]) + 1))
         incs = [e for e in effs if e.cls == "assign" and any(f == "stats" for (f, _) in self_field_targets(e, ctx))]
         ok_inc = len(incs) == len(entries) and all(
             is_plus_one(trees(e.ctx, e.value)) for e in incs)
@@ -546,6 +555,18 @@ def r_tail(F, R):
         def is_counter(t):
             return t[0] == "place" and t[2] == ("arg", 1) and len(t[3]) == 1 and t[3][0] in counters
 
+        # the table is indexed with W bits (`pending_byte >> (pending_bits - W)` on the main path):
+        # the end-of-input arms, whose panics say the input is exhausted, belong to the case of
+        # *fewer* than W pending bits; reached with exactly W bits they refuse a code word whose
+        # continuation is simply in the next table level
+        widths = set()
+        for bi in b.live_blocks():
+            for st in b.blocks[bi]["stmts"]:
+                if st["k"] == "assign" and st["rv"]["k"] == "binop" and st["rv"]["op"].startswith("Sub"):
+                    a_, c_ = operand_tree(ctx, st["rv"]["a"]), operand_tree(ctx, st["rv"]["b"])
+                    if is_counter(a_) and c_[0] == "const" and str(c_[1]).isdigit() and int(c_[1]) >= 2:
+                        widths.add(int(c_[1]))
+        W = max(widths) if widths else None
         n = 0
         msgs = {}
         for bi in sorted(b.live_blocks()):
@@ -553,8 +574,30 @@ def r_tail(F, R):
             if not (t["k"] == "call" and t["target"] is None):
                 continue
             n += 1
+            if any(m in ("assert", "debug_assert", "assert_eq", "assert_ne", "debug_assert_eq", "debug_assert_ne")
+                   for m in str(t.get("mac") or "").split(",")):
+                R.undecided_site("R-TAIL", b.label(), "assertion at %s:%s: an invariant check, not an end-of-input refusal; whether "
+                                 "its condition can fail is value-level" % (b.file, t["line"]))
+                continue
             ok = False
             seen = []
+            if W is not None:
+                ups = []
+                for f in facts_at(ctx, bi):
+                    if f[0] not in ("Lt", "Le", "Gt", "Ge"):
+                        continue
+                    op, x, y = f[0], f[1], f[2]
+                    if is_counter(y) and not is_counter(x):
+                        op = {"Lt": "Gt", "Le": "Ge", "Gt": "Lt", "Ge": "Le"}.get(op, op)
+                        x, y = y, x
+                    if is_counter(x) and y[0] == "const" and str(y[1]).isdigit() and op in ("Lt", "Le"):
+                        ups.append(int(y[1]) - (1 if op == "Lt" else 0))  # counter <= ups
+                if ups and min(ups) == W:
+                    R.check("R-TAIL", b.label(), False, construct="end-of-input arms are reached with fewer than a table index of bits",
+                            where="%s:%s" % (b.file, t["line"]),
+                            detail="this panic is reached under pending bits <= %d, while the table lookup on the main path consumes %d: "
+                                   "with exactly %d bits pending a code that continues in the next table level is refused although its "
+                                   "remaining bits are still in the input" % (W, W, W))
             for f in facts_at(ctx, bi):
                 if f[0] not in ("Ne", "Gt", "Ge", "Lt", "Le", "Eq"):
                     continue
@@ -669,6 +712,165 @@ def r_chunk(F, R, cat=None):
                            "dominating comparison against the remaining bits: a short item lying inside one byte is "
                            "read together with the bits that follow it" % (show(addend), show(end)))
     R.floor("R-CHUNK", "cursor advances in BitIterator::next", n_sites, 1)
+
+
+def r_acc_width(F, R):
+    """The encoder shifts each code into an accumulator that already holds up to 7 pending bits:
+    the accumulator must be at least 7 bits wider than the longest code the code table's type
+    admits (codes deeper than 57 bits need more than 10^11 recorded symbols and are out of reach;
+    the demand is capped there, which is what a 64-bit accumulator offers).  A table that admits
+    32-bit codes feeding a 32-bit accumulator silently loses the oldest pending bits for codes of
+    26 bits and more."""
+    import re
+    enc = F.adts.get("impls::huffman_container::huffman::encoder::Encoder")
+    huf = F.adts.get("impls::huffman_container::huffman::Huffman")
+    if not enc or not huf or not enc.get("variants") or not huf.get("variants"):
+        R.undecided_site("R-SHIFT", "huffman::encoder::Encoder", "encoder or code table type not found: accumulator width not decided")
+        return
+    acc = next((f["ty"]["s"] for f in enc["variants"][0]["fields"] if f["name"] == "pending_byte"), None)
+    tab = next((f["ty"]["s"] for f in huf["variants"][0]["fields"] if f["name"] == "encode"), "")
+    m = re.search(r"\((\w+), (\w+)\)>?$", tab)
+    if acc not in WIDTH or not m or m.group(1) not in WIDTH or m.group(2) not in WIDTH:
+        R.undecided_site("R-SHIFT", "huffman::encoder::Encoder", "accumulator type %r / code table type %r not read: "
+                         "accumulator width not decided" % (acc, tab))
+        return
+    comps = [m.group(1), m.group(2)]
+    non = [c for c in comps if c != "usize"]
+    code_ty = non[0] if len(non) == 1 else comps[1]
+    need = min(WIDTH[code_ty], 57)
+    ok = WIDTH[acc] - 7 >= need
+    R.check("R-SHIFT", "huffman::encoder::Encoder", ok, construct="the accumulator holds 7 pending bits plus the longest admitted code",
+            where="src/impls/huffman_container.rs", detail="accumulator %s (%d bits), codes stored as %s" % (acc, WIDTH[acc], code_ty) +
+            ("" if ok else ": a code of %d..%d bits pushed while bits are pending shifts the oldest pending bits out of the "
+             "accumulator; the item reads back as other symbols" % (WIDTH[acc] - 6, WIDTH[code_ty])))
+
+
+def r_weights(F, R):
+    """`Huffman::create_from` must build the tree for the statistics it is given: the code is
+    optimal for the weights that enter the heap.  Positive evidence of a violation: while building
+    (in create_from or a helper of it) a stored weight is rewritten in place by a function of
+    itself and constants alone -- `*w = (*w + 1) / 2`, `*w = min(*w, c)`, `*w >>= 1` -- i.e. the
+    statistics are rescaled / clamped before (re)building, so the lengths are optimal for other
+    weights than the merged statistics.  (A fork's weight, the sum of two *other* weights, is not
+    such a rewrite.)"""
+    from core import all_ctxs
+    from expr import place_tree, nobb
+    tops = [b for b in F.bodies.values() if (b.self_adt or "").endswith("huffman::Huffman") and b.name == "create_from"
+            and not b.in_tests()]
+    n = 0
+    for top in tops:
+        R.saw(top)
+        for ctx in all_ctxs(F, top):
+            b = ctx.body
+            for bi in sorted(b.live_blocks()):
+                for si, st in enumerate(b.blocks[bi]["stmts"]):
+                    if st["k"] != "assign" or not any(e["k"] in ("deref", "index") for e in st["place"]["p"]):
+                        continue
+                    rv = st["rv"]
+                    if rv["k"] not in ("use", "binop"):
+                        continue
+                    try:
+                        tgt = nobb(place_tree(ctx, st["place"]))
+                        val = nobb(trees(ctx, ctx.org.rvalue(rv, bi, si)))
+                    except Exception:
+                        continue
+                    n += 1
+                    if val[0] not in ("bin", "call"):
+                        continue
+                    if val[0] == "call" and val[1][1] not in ("min", "max", "clamp", "saturating_sub", "div_ceil"):
+                        continue
+
+                    def leaves(t):
+                        if t[0] == "bin":
+                            return leaves(t[2]) + leaves(t[3])
+                        if t[0] == "call" and t[1][1] in ("min", "max", "clamp", "saturating_sub", "div_ceil") and not t[3]:
+                            return [x for a in t[2] for x in leaves(a)]
+                        return [] if t[0] == "const" else [t]
+                    lv_ = leaves(val)
+                    if not lv_ or any(x != tgt for x in lv_):
+                        continue
+                    ops = {nd[1] for nd in walk(val) if nd[0] == "bin"} | ({val[1][1]} if val[0] == "call" else set())
+                    if not (ops & {"Div", "Shr", "min", "clamp", "Rem", "div_ceil"}):
+                        continue  # (a counter `+= 1` is not a rescaling)
+                    R.check("R-OPTIMAL", top.label(), False, construct="the tree is built for the statistics as given",
+                            where="%s:%s" % (b.file, st["line"]),
+                            detail="a stored weight is rewritten in place as %s before the tree is (re)built: the code lengths "
+                                   "are optimal for rescaled weights, not for the merged statistics" % show(val)[:80])
+    R.info("R-OPTIMAL: %d in-place stores inspected while building the code" % n)
+
+
+def r_chunk_align(F, R, cat=None):
+    """BitIterator::next returns (chunk, n): the n bits of the current byte that start at the
+    cursor's offset within the byte (cursor % 8), right-aligned.  Counting from the top of the
+    byte, the chunk therefore ends at bit offset + n, i.e. the byte is shifted right by
+    8 - offset - n.  Positive evidence of a violation: in some returned pair the shift amount s
+    and the count n satisfy s + n = constant -- the chunk is cut from a fixed position of the byte
+    whatever the cursor's offset -- while the function never tests the offset for equality."""
+    from expr import ret_alts, nobb, lin, lin_sub, edge_facts, NONE
+    bodies = [b for b in F.bodies.values() if (b.self_adt or "").endswith("BitIterator") and b.name == "next"
+              and b.trait == "Iterator" and not b.in_tests()]
+    n = 0
+    for b in bodies:
+        ctx = Ctx(b)
+
+        def is_load(t):
+            return t[0] == "place" and t[1] == b.key and t[2] == ("arg", 1) and "[]" in t[3]
+
+        def has_load(t):
+            return any(is_load(nd) for nd in walk(t))
+
+        def offset_atoms(t):
+            return [nd for nd in walk(t) if nd[0] == "bin" and nd[1] == "Rem" and nd[3] == ("const", "8")]
+        tests_offset = False
+        for s_ in b.live_blocks():
+            for (_t, fs) in edge_facts(ctx, s_):
+                for f in fs:
+                    if f[0] in ("Eq", "Ne", "truthy") and any(offset_atoms(x) for x in f[1:3] if isinstance(x, tuple)):
+                        tests_offset = True
+        for alt in ret_alts(ctx):
+            alt = nobb(alt)
+            if alt == NONE or not (alt[0] == "agg" and alt[1] == "Option::Some" and alt[2] and alt[2][0][0] == "agg" and
+                                   len(alt[2][0][2]) == 2):
+                continue
+            byte, bits = alt[2][0][2]  # a pair, or a two-field struct in place of it
+            if has_load(bits) and not has_load(byte):
+                byte, bits = bits, byte
+            while byte[0] == "bin" and byte[1] == "BitAnd":
+                side = [x for x in (byte[2], byte[3]) if has_load(x)]
+                if len(side) != 1:
+                    break
+                byte = side[0]
+            if is_load(byte):
+                shift = {}
+            elif byte[0] == "bin" and byte[1] in ("Shr", "Div") and is_load(byte[2]):
+                if byte[1] == "Div":
+                    continue  # a constant shift: a different formulation (not read)
+                shift = lin(byte[3])
+            else:
+                R.undecided_site("R-CHUNK", b.label(), "returned chunk %s is not a shifted / masked load of the current byte: "
+                                 "its alignment is not decided" % show(byte)[:80])
+                n += 1
+                continue
+            n += 1
+            d = lin_sub(lin_sub({1: 8}, shift), lin(bits))
+            d = {k: v for k, v in d.items() if v != 0}
+            offs = [k for k in d if k != 1 and isinstance(k, tuple) and k[0] == "bin" and k[1] == "Rem" and k[3] == ("const", "8")]
+            if len(d) == 1 and len(offs) == 1 and d[offs[0]] == 1:
+                R.check("R-CHUNK", b.label(), True, construct="the chunk starts at the cursor's offset within the byte",
+                        where=b.where(), detail="shift + count + %s = 8" % show(offs[0]))
+            elif set(d) <= {1} and not tests_offset and not offset_atoms(byte) :
+                R.check("R-CHUNK", b.label(), False, construct="the chunk starts at the cursor's offset within the byte",
+                        where=b.where(), detail="a returned pair shifts the byte by %s and reports %s bits: shift + count is the "
+                        "constant %s, so the chunk is cut from a fixed position of the byte; an item that starts inside a byte "
+                        "(after another item's bits) and ends inside it is read from the wrong bits" %
+                        (show(byte[3]) if byte[0] == "bin" else "0", show(bits)[:60], 8 - int(d.get(1, 0))))
+            else:
+                R.undecided_site("R-CHUNK", b.label(), "alignment of a returned chunk: 8 - shift - count = %s is not the cursor's "
+                                 "offset alone (an infeasible pairing of arms, or a shape the rule does not read)" %
+                                 {show(k) if k != 1 else 1: str(v) for k, v in d.items()})
+    if bodies and n == 0:
+        R.undecided_site("R-CHUNK", bodies[0].label(), "no returned (chunk, count) pair recognised in BitIterator::next: "
+                         "the chunk's alignment is not decided")
 
 
 def fact_holds_(ctx, f, bb, at_stmt=None):
